@@ -130,6 +130,9 @@ def one_step(ctx, st, S, pat, rep, R, step, seed, atol, replace_all, case_w, pai
         ctx.fail("%sreplacement raised %s: %s" % (label, type(obs["exception"]).__name__, str(obs["exception"])[:200]), witness=w)
         return None, 0
     out, found, sel = obs["result"], obs["found"], obs["selected"]
+    if sel is None:
+        st.count("not_judged_selection_not_observable")
+        return None, 0
     S_ids = [float(c) for c in S.charges]
     shared = replcase.shared_pairs(pat, rep)
     n_new = len(rep["elements"]) if replace_all else len(rep["elements"]) - len(shared)
@@ -140,9 +143,25 @@ def one_step(ctx, st, S, pat, rep, R, step, seed, atol, replace_all, case_w, pai
         rid = [(step, k, c) if (replace_all or ri not in shared) else c for ri, c in enumerate(rids_base)]
         return AM.resolve(R, ids=rid), rid
     pred, removed = predict(mS, S_ids, mR_for, found, sel, shared, replace_all, len(pat["elements"]))
-    oid = out_ids(out, set(S_ids), sel, n_new, step)
-    real = AM.resolve(out, ids=oid)
-    bad = AM.compare(real, pred, check_pos=False)
+    # in which order the selected matches were served is nobody's business: the blocks of inserted atoms are tried against the
+    # selected matches in every order (at most 24) and the first order under which everything agrees is taken
+    import itertools
+    orders = [list(sel)] + ([list(p) for p in itertools.permutations(sel) if list(p) != list(sel)] if 2 <= len(sel) <= 4 else [])
+    first = None
+    for order in orders:
+        if order != list(sel):
+            pred, removed = predict(mS, S_ids, mR_for, found, order, shared, replace_all, len(pat["elements"]))
+        oid = out_ids(out, set(S_ids), order, n_new, step)
+        real = AM.resolve(out, ids=oid)
+        bad = AM.compare(real, pred, check_pos=False)
+        if first is None or len(bad) < len(first[2]):
+            first = (oid, real, bad, pred)      # (the order that leaves the fewest disagreements, should none leave none)
+        if not bad:
+            if order != list(sel):
+                st.count("matches_served_in_another_order_than_selected")
+            break
+    else:
+        oid, real, bad, pred = first
     judge(ctx, st, bad, pair_class, w, label + "in memory: ")
     st.count("steps_compared_with_model")
     st.count("matches_replaced", len(sel))
@@ -249,6 +268,34 @@ def run_case(case, ctx):
                         setattr(R, "extra_%s_fields" % kd, np.full((len(rarr) + 1, 0), ".", dtype=object))
                         st.count("forced_override_terms")
                     break
+    # one case in three: the structure describes some interactions by two terms over the same atoms (a torsion as a sum of two
+    # cosine terms, listed forwards or backwards, each with its own type) - preferably where the pattern brings its own term
+    if case["s"] % 3 == 1:
+        for kd in atomsgen.KNAMES:
+            wd = atomsgen.WIDTH[kd]
+            arr = np.asarray(getattr(S, atomsgen.ARR[kd])).reshape(-1, wd)
+            if len(arr) == 0:
+                continue
+            rarr = [tuple(int(x) for x in r) for r in np.asarray(getattr(R, atomsgen.ARR[kd])).reshape(-1, wd)]
+            targets = []
+            for g in built["planted"]:
+                pos_in_g = {a: j for j, a in enumerate(g)}
+                for ri, row in enumerate(arr):
+                    if all(int(a) in pos_in_g and pos_in_g[int(a)] in inv for a in row):
+                        t = tuple(inv[pos_in_g[int(a)]] for a in row)
+                        if t in rarr or t[::-1] in rarr:
+                            targets.append(ri)
+            ri = targets[0] if targets else int(rng.integers(len(arr)))
+            twin = arr[ri] if rng.integers(2) else arr[ri][::-1]
+            types = np.asarray(getattr(S, "%s_types" % kd))
+            ntab = len(getattr(S, "%s_type_coeffs" % kd))
+            ttwin = (int(types[ri]) + 1) % ntab if ntab > 1 else int(types[ri])
+            setattr(S, atomsgen.ARR[kd], np.append(arr, [twin], axis=0))
+            setattr(S, "%s_types" % kd, np.append(types, ttwin))
+            setattr(S, "extra_%s_fields" % kd, np.full((len(arr) + 1, 0), ".", dtype=object))
+            st.count("structure_terms_doubled_over_the_same_atoms")
+            if targets:
+                st.count("doubled_structure_terms_that_the_pattern_supersedes")
     w = {"case": {k2: case[k2] for k2 in ("cell", "pattern", "repl", "chain", "pair", "replace_all")}, "planted": built["planted"]}
     out, nrep = one_step(ctx, st, S, pat, rep, R, 1, case["s"], atol, case["replace_all"], w, pair_class, fraction=[1.0, 1.0, 1.0, 0.67, 0.5][(case["s"] // 3) % 5])
     nontrivial = nrep > 0
@@ -365,6 +412,8 @@ def example_step(ctx, st, S, P, R, pat, rep, step, pf, rf):
 
 def requirements(stats, tier):
     need = []
+    if stats.get("doubled_structure_terms_that_the_pattern_supersedes") < (5 if tier == "quick" else 500):
+        need.append("structure terms doubled over the same atoms that the pattern supersedes: %d" % stats.get("doubled_structure_terms_that_the_pattern_supersedes"))
     if stats.get("steps_compared_with_model") < (300 if tier == "quick" else 40000):
         need.append("too few replacement steps compared: %d" % stats.get("steps_compared_with_model"))
     if stats.get("second_replacements_with_the_first_pattern_reparametrised") < (10 if tier == "quick" else 1000):
